@@ -145,6 +145,21 @@ class StrV(V):  # only constants
 
 
 @dataclass
+class SetListV(V):
+    """list of integers used as a *visited set* (append, `in`, len): membership array + element count.
+    (order is not tracked; a function that indexes or iterates such a list is Unsupported)"""
+    mem: z3.ExprRef  # Array Int Bool
+    n: z3.ExprRef
+
+
+@dataclass
+class OpaqueV(V):
+    """a value whose content the contract does not care about (decoded strings, parsed XML ...): any attribute / call on it is
+    again opaque; it can be stored and passed around but not branched on"""
+    tag: str = "opaque"
+
+
+@dataclass
 class LambdaV(V):  # a lambda expression, only ever handed to an extern contract that inspects its source
     node: object
 
@@ -432,7 +447,9 @@ class Engine:
             if self.model.is_method(base.path, n.attr):
                 return BoundMethod(base, n.attr)
             return self.model.attr(self, st, base.path, n.attr, n)
-        if isinstance(base, (FileV, ListV, BytesV, SeqV)):
+        if isinstance(base, (FileV, ListV, BytesV, SeqV, SetListV)):
+            return BoundMethod(base, n.attr)
+        if isinstance(base, OpaqueV):
             return BoundMethod(base, n.attr)
         if isinstance(base, OptV) and isinstance(base.val, ObjV):
             self.may_raise("AttributeError", st, z3.Not(base.is_none), n)
@@ -596,6 +613,9 @@ class Engine:
             e = self.eq_values(l, r, st, n)
             return e if op == "Eq" else z3.Not(e)
         if op in ("In", "NotIn"):
+            if isinstance(r, SetListV):
+                e = z3.Select(r.mem, self.as_int(l, st, n))
+                return e if op == "In" else z3.Not(e)
             if isinstance(r, TupleV):
                 e = z3.Or(*[self.eq_values(l, x, st, n) for x in r.items]) if r.items else z3.BoolVal(False)
                 return e if op == "In" else z3.Not(e)
@@ -686,7 +706,13 @@ class Engine:
 
     def ev_List(self, n, st):
         if n.elts:
-            return TupleV([self.ev(e, st) for e in n.elts])
+            vals = [self.ev(e, st) for e in n.elts]
+            if all(isinstance(v, IntV) for v in vals) and getattr(self.model, "int_lists_are_sets", False):
+                mem = z3.K(I, z3.BoolVal(False))
+                for v in vals:
+                    mem = z3.Store(mem, v.e, z3.BoolVal(True))
+                return SetListV(mem, z3.IntVal(len(vals)))
+            return TupleV(vals)
         return ListV(EMPTY)
 
     def slice_bytes(self, b: BytesV, lo, hi):
@@ -742,6 +768,19 @@ class Engine:
                 return self.model.call(self, st, recv.path, f.name, args, n, **kwargs)
             if isinstance(recv, FileV):
                 return self.file_op(recv.name, f.name, args, st, n)
+            if isinstance(recv, SetListV) and f.name == "append":
+                tgt = n.func.value
+                if not isinstance(tgt, ast.Name):
+                    raise Unsupported("append on non-name")
+                x = self.as_int(args[0], st, n)
+                st.env[tgt.id] = SetListV(z3.Store(recv.mem, x, z3.BoolVal(True)), recv.n + 1)
+                if hasattr(self.model, "on_set_append"):
+                    self.model.on_set_append(self, st, recv, x, n)
+                return NoneV()
+            if isinstance(recv, OpaqueV):
+                return OpaqueV(recv.tag)
+            if isinstance(recv, BytesV) and f.name == "decode":
+                return OpaqueV("str")
             if isinstance(recv, ListV) and f.name == "append":
                 tgt = n.func.value
                 if not isinstance(tgt, ast.Name):
@@ -909,6 +948,11 @@ class Engine:
                 raise Unsupported(f"attribute store on {type(base).__name__}@{node.lineno}")
             if self.model.on_attr_store(self, st, base.path, tgt.attr, v, node) != "skip":
                 st.attrs[f"{base.path}.{tgt.attr}"] = v
+        elif isinstance(tgt, ast.Subscript):
+            base = self.ev(tgt.value, st)
+            if not isinstance(base, ObjV):
+                raise Unsupported(f"subscript store on {type(base).__name__}@{node.lineno}")
+            self.model.setitem(self, st, base.path, self.ev(tgt.slice, st), v, node)
         else:
             raise Unsupported(f"assign target {ast.unparse(tgt)}@{node.lineno}")
 
@@ -1005,13 +1049,17 @@ class Engine:
                 st.ghost["@" + m] = v.e
             elif isinstance(v, ListV):
                 st.ghost["@" + m] = v.joined
+            elif isinstance(v, SetListV):
+                st.ghost["@" + m] = v
         st.ghost["@io"] = st.ghost.get("io", z3.IntVal(0))
 
     def _havoc(self, st: State, s, spec: LoopSpec):
         for m in self._modified_names(s):
             shape = spec.shapes.get(m)
             old = st.env.get(m)
-            if shape == "optint" or (shape is None and isinstance(old, (OptV, NoneV))):
+            if callable(shape):
+                st.env[m] = shape(self, st)
+            elif shape == "optint" or (shape is None and isinstance(old, (OptV, NoneV))):
                 st.env[m] = OptV(fresh(m + "_isnone", B), IntV(fresh(m)))
             elif shape == "int" or (shape is None and isinstance(old, IntV)):
                 st.env[m] = IntV(fresh(m))
@@ -1021,6 +1069,8 @@ class Engine:
                 kind = old.kind if isinstance(old, ListV) else "bytes"
                 st.env[m] = ListV(fresh_bytes(m), kind)
                 st.hyps.append(st.env[m].joined.n >= 0)
+            elif isinstance(old, SetListV):
+                st.env[m] = SetListV(fresh(m + "_mem", z3.ArraySort(I, B)), fresh(m + "_n"))
             elif shape == "local" or old is None:
                 st.env.pop(m, None)  # loop-local: assigned before use in every iteration
             else:
